@@ -52,6 +52,23 @@ Theorem C18_rinv_meaning : forall stream s, rinv stream s ->
 Proof. intros stream s [(G1 & G2 & G3) L (N1 & N2 & N3) W]. auto. Qed.
 Print Assumptions C18_rinv_meaning.
 
+(* what C18_read_bounds excludes: commitRead may only halve the buffer when everything was consumed and both offsets
+   are back at 0.  A variant that halves as soon as the NUMBER of unread bytes fits into the smaller buffer, without
+   looking at where they sit and without moving them, leaves readEndOff beyond the end of the buffer when the unread
+   tail lies above the midpoint (the next read then indexes readBuffer[readEndOff] out of range). *)
+Definition g_commit_shrink_by_count (c : cfg) (g : geom) (k : Z) : geom :=
+  let st := g_start g + k in
+  let '(st', en') := if st =? g_end g then (0, 0) else (st, g_end g) in
+  {| g_len := if (g_len g >? shrink_limit c) && (en' - st' <=? g_len g / 2) then g_len g / 2 else g_len g;
+     g_start := st'; g_end := en' |}.
+Example C18_shrink_by_count_breaks_bounds :
+  let c := {| init_len := 4; threshold := 100; shrink_limit := 8 |} in
+  let g := {| g_len := 16; g_start := 0; g_end := 12 |} in        (* 12 unread bytes in a 16-byte buffer (> limit 8) *)
+  g_end (g_commit_shrink_by_count c g 10) > g_len (g_commit_shrink_by_count c g 10)   (* tail [10,12) above midpoint 8 *)
+  /\ g_end (g_commit c g 10) <= g_len (g_commit c g 10)                                (* the real commitRead keeps 16 *)
+  /\ g_len (g_commit c g 12) = 8.                                                      (* and halves once all is consumed *)
+Proof. vm_compute. repeat split; discriminate. Qed.
+
 (* write: for every pattern of partial writes / EAGAIN / failure the bytes accepted by the kernel are exactly a
    prefix of the message, in order, each once; write returns nil exactly when the whole message is on the wire *)
 Theorem C18_write : forall data ks w', write data ks = Some w' ->
